@@ -25,6 +25,12 @@ CLAIMED = {
             "histories of any length by induction; all parameter and input values; D = 2", "4-C10"),
     "C11": ("proof", "contract-based deductive verification: accessor agreement (W V = I, exp(logabsdet) = |det W| by cofactors, forward = W x + b, inverse = V (y - b)) as polynomial postconditions over symbolic parameters; QR/SVD proved against the Householder contract; constructor grid as a bounded enumeration",
             "all parameter values at D <= 2 (3 thorough) under the stated non-degeneracy preconditions; constructor configurations enumerated (bounded part, labelled)", "4-C11"),
+    "C12": ("proof", "contract-based deductive verification: syntactic non-interference on the symbolic execution of the real code (row b of every result mentions only row-b symbols), postcondition of every class harness in evaluation mode",
+            "all values; batch size 2 (elementwise kernels for every batch size by leading-shape polymorphism)", "4-C12"),
+    "C13": ("proof", "contract-based deductive verification: frame conditions (`assigns`) from the write log of the symbolic execution, per base storage, for every class harness",
+            "all values and views; eval mode: no write to arguments, parameters or buffers", "4-C13"),
+    "C19": ("other", "contract-based deductive verification of the dtype contracts only (result dtype = input dtype, no dtype error on float64 and float32); numeric float32/float64 agreement is NOT decided by this family",
+            "partial: dtype clauses proved for the elementwise transform classes; closeness of float32 to float64 results is listed as not decided", "4-C19"),
 }
 REASON_TODO = "check not built yet in this session (the design in DESIGN.md section 4 applies; will be claimed when its contracts discharge)"
 props = [json.loads(l) for l in open(os.path.join(V, "properties.jsonl"))]
